@@ -1,4 +1,6 @@
 import Batteries.Tactic.Alias
+import GenlmModel.Proofs.PrefixWeight
+import GenlmModel.Proofs.BoolLink
 import GenlmModel.Proofs.Mask
 import GenlmModel.Proofs.AddEosDerives
 /-! # C01 — the next-token mask is exactly the set of viable continuations
@@ -29,4 +31,10 @@ alias eos_offered_iff_sentence := Genlm.eos_mem_nextSet
 alias token_offered_iff_viable := Genlm.mem_nextSet_addEOS
 /-- rule order is irrelevant -/
 alias rule_order_irrelevant := Genlm.Derives_perm
+/-- the Boolean layer: derivability = some Boolean derivation sum is true -/
+alias derives_iff_boolean_WN := Genlm.Derives_iff_WN_bool
+/-- the mask in terms of Boolean derivation sums … -/
+alias mask_via_WN := Genlm.mask_via_WN
+/-- … and as the support of the prefix grammar `G @ prefix_transducer` (what BoolCFGLM's parsers run on) -/
+alias mask_via_prefix_grammar := Genlm.mask_via_prefix_grammar
 end Genlm.Props.C01
